@@ -46,7 +46,8 @@ def ili_file(r, pool):
                 row['status'] = r.choice(STATUSES[:4])
                 vals.append(row['status'])
             elif lc == 'definition':
-                row['definition'] = r.choice(['', 'a definition', 'définition ü 猫', 'with "quotes" & <tags>', 'x' * 50])
+                row['definition'] = r.choice(['', 'a definition', 'définition ü 猫', 'with "quotes" & <tags>', 'x' * 50, '"quoted" at the start',
+                                              '"unbalanced quote at the start', "'single' quotes, commas, and; semicolons"])
                 vals.append(row['definition'])
         if r.random() < 0.1 and len(vals) > 1:
             # short line: trailing columns missing
